@@ -51,8 +51,11 @@ TRUSTED_BASE_COMMON = [
 
 def load_findings(prop: str):
     out = []
-    if FINDINGS_FILE.exists():
-        for line in FINDINGS_FILE.read_text().splitlines():
+    files = [FINDINGS_FILE] + sorted((VERIF / "known_findings.d").glob("*.jsonl"))
+    for ff in files:
+        if not ff.exists():
+            continue
+        for line in ff.read_text().splitlines():
             line = line.strip()
             if not line or line.startswith("#"):
                 continue
